@@ -26,7 +26,7 @@ fn work_dir() -> String {
 /// planned number of runs per property and tier (counts, not durations)
 pub fn planned_runs(prop: &str, tier: &str) -> u64 {
     let quick = match prop {
-        "C02" => 600_000,
+        "C02" => 1_200_000,
         "C03" => 1_000_000,
         "C05" => 800_000,
         "C06" => 1_200_000,
